@@ -390,6 +390,7 @@ type ctxT struct {
 	r      *common.Run
 	sess   map[cfgT]*common.RawSession
 	failed bool
+	stalls int
 }
 
 func (c *ctxT) fail(clause, key string, lines []string, detail string) {
@@ -500,8 +501,15 @@ func (c *ctxT) one(cfg cfgT, cl call, class string) {
 		if status == "ok" {
 			// anything a later flush still brings out was not on the connection when
 			// the call returned
-			if w := rs.S.TokenWriter(); w.Close() == nil {
-				late = rs.Out.Take()
+			if !common.WithTimeout(5*time.Second, func() {
+				if w := rs.S.TokenWriter(); w.Close() == nil {
+					late = rs.Out.Take()
+				}
+			}) {
+				c.fail("lock-released", cl.entry, lines, "the output lock is still held after the call returned")
+				delete(c.sess, cfg)
+				r.Line(line, "STALL -")
+				return
 			}
 		}
 	}
@@ -774,7 +782,7 @@ func (c *ctxT) concurrent(cfg cfgT, rnd *common.Rand, nG, nK int, caseNo int) {
 	if finished {
 		// bring out what Encode/EncodeElement left in the buffer for WriterTo values (known
 		// finding, reported by the sequential cases); atomicity is judged on the complete stream
-		rs.S.TokenWriter().Close()
+		finished = common.WithTimeout(10*time.Second, func() { rs.S.TokenWriter().Close() })
 	}
 	wire := rs.Out.Bytes()
 	r.Mark("case conc %d", caseNo)
